@@ -528,22 +528,22 @@ container on the way), whether it succeeds or is rejected: only the typed descen
 written to validates the value, the ancestors are not re-validated — they stay fixed points of their
 specs nevertheless.  `hp`: the containers along the path satisfy `PathOK` (typed dicts / lists,
 not frozen — F185 —, idempotent field specs). -/
-theorem C03_path_write_preserve (env : Env) (pb : Val → Bool) (d : TDict) (k : String) (rest : List PKey)
+theorem path_write0_preserve (env : Env) (pb : Val → Bool) (d : TDict) (k : String) (rest : List PKey)
     (ins : Bool) (a : Val)
     (hI : ∀ f ∈ d.fields, Idem env false f.value) (hM : ∀ f ∈ d.fields, MissingOK env false f.value)
     (hp : rest ≠ [] → ∀ c fld, lookup d.kvs k = some c → getField env d.fields k = some fld →
       PathOK env fld.value c rest)
     (hc : ConformsD env false d) (hs : NoStaleMissing env false d) :
-    ConformsD env false (pathWrite env pb d k rest ins a).1 ∧
-      NoStaleMissing env false (pathWrite env pb d k rest ins a).1 ∧
-      (pathWrite env pb d k rest ins a).1.fields = d.fields := by
+    ConformsD env false (pathWrite0 env pb d k rest ins a).1 ∧
+      NoStaleMissing env false (pathWrite0 env pb d k rest ins a).1 ∧
+      (pathWrite0 env pb d k rest ins a).1.fields = d.fields := by
   cases rest with
   | nil =>
-    simp only [pathWrite]
+    simp only [pathWrite0]
     have h1 := C03_dict_prim_preserve_aux env pb d k a hI hc
     exact ⟨h1.1, dictPrim_nostale env pb d k a hM hs, h1.2⟩
   | cons t ts =>
-    simp only [pathWrite]
+    simp only [pathWrite0]
     cases hl : lookup d.kvs k with
     | none => exact ⟨hc, hs, rfl⟩
     | some c =>
@@ -565,15 +565,15 @@ theorem C03_path_write_preserve (env : Env) (pb : Val → Bool) (d : TDict) (k :
           exact ⟨h1, h2, by first | rfl | trivial⟩
 
 /-- A rejected path write stores nothing. -/
-theorem C03_path_write_reject (env : Env) (pb : Val → Bool) (d : TDict) (k : String) (rest : List PKey)
-    (ins : Bool) (a : Val) (e : E) (h : (pathWrite env pb d k rest ins a).2 = some e) :
-    (pathWrite env pb d k rest ins a).1 = d := by
+theorem path_write0_reject (env : Env) (pb : Val → Bool) (d : TDict) (k : String) (rest : List PKey)
+    (ins : Bool) (a : Val) (e : E) (h : (pathWrite0 env pb d k rest ins a).2 = some e) :
+    (pathWrite0 env pb d k rest ins a).1 = d := by
   cases rest with
   | nil =>
-    simp only [pathWrite] at h ⊢
+    simp only [pathWrite0] at h ⊢
     exact C03_dict_prim_reject env false pb d k (.plain a) e h
   | cons t ts =>
-    simp only [pathWrite] at h ⊢
+    simp only [pathWrite0] at h ⊢
     cases hl : lookup d.kvs k with
     | none => rfl
     | some c =>
@@ -585,40 +585,295 @@ theorem C03_path_write_reject (env : Env) (pb : Val → Bool) (d : TDict) (k : S
         | error e' => rfl
         | ok c' => simp [hn] at h
 
-/-- FULL STATEMENT without the path condition. -/
-def C03_path_write_Full : Prop :=
-  ∀ (env : Env) (pb : Val → Bool) (d : TDict) (k : String) (rest : List PKey) (ins : Bool) (a : Val),
-    ConformsD env false d → ConformsD env false (pathWrite env pb d k rest ins a).1
+theorem C03_path_write_preserve (env : Env) (pb : Val → Bool) (d : TDict) (k : String) (rest : List PKey)
+    (ins : Bool) (a : Val)
+    (hI : ∀ f ∈ d.fields, Idem env false f.value) (hM : ∀ f ∈ d.fields, MissingOK env false f.value)
+    (hp : rest ≠ [] → ∀ c fld, lookup d.kvs k = some c → getField env d.fields k = some fld →
+      PathOK env fld.value c rest)
+    (hc : ConformsD env false d) (hs : NoStaleMissing env false d) :
+    ConformsD env false (pathWrite env pb d k rest ins a).1 ∧
+      NoStaleMissing env false (pathWrite env pb d k rest ins a).1 ∧
+      (pathWrite env pb d k rest ins a).1.fields = d.fields := by
+  unfold pathWrite
+  split
+  · exact ⟨hc, hs, rfl⟩
+  · exact path_write0_preserve env pb d k rest ins a hI hM hp hc hs
 
-/-- F185 (replayed on the real code): with `('fl', List(Int()).freeze([1, 2]))`,
-`d.rebind({'fl[0]': 7})` succeeds and the frozen field no longer holds its frozen value. -/
-theorem C03_path_write_counterexample : ¬ C03_path_write_Full := by
-  intro h
-  let fl : Spec := .list (.int none none F0) 0 none ⟨false, .list [.int 1, .int 2], true⟩
-  have hc : ConformsD envT false ⟨[Field.mk (.const "fl") fl], [("fl", .list [.int 1, .int 2])]⟩ := by
-    refine ⟨?_, ?_⟩
-    · intro kv hkv
-      simp only [List.mem_singleton] at hkv
-      subst hkv
-      exact ⟨_, rfl, rfl⟩
-    · intro k hk
-      simp only [constKeys, List.mem_singleton] at hk
-      subst hk; rfl
-  have hres : (pathWrite envT (fun _ => false) ⟨[Field.mk (.const "fl") fl], [("fl", .list [.int 1, .int 2])]⟩
-      "fl" [.idx 0] false (.int 7)).1.kvs = [("fl", .list [.int 7, .int 2])] := by rfl
-  have := (h envT (fun _ => false) _ "fl" [.idx 0] false (.int 7) hc).1 ("fl", .list [.int 7, .int 2]) (by
-    rw [hres]; exact List.mem_singleton.2 rfl)
-  obtain ⟨f, hf, hap⟩ := this
-  simp only [getField, List.find?_cons, Field.key, beq_self_eq_true] at hf
-  injection hf with hf
-  subst hf
-  have e : apply envT (Field.mk (KeySpec.const "fl") fl).value false ("fl", Val.list [.int 7, .int 2]).snd
-      = .error .value := by rfl
-  rw [e] at hap
-  cases hap
+/-- A rejected path write (schema rejection, missing path, or a sealed target) stores nothing. -/
+theorem C03_path_write_reject (env : Env) (pb : Val → Bool) (d : TDict) (k : String) (rest : List PKey)
+    (ins : Bool) (a : Val) (e : E) (h : (pathWrite env pb d k rest ins a).2 = some e) :
+    (pathWrite env pb d k rest ins a).1 = d := by
+  unfold pathWrite at h ⊢
+  split
+  · rfl
+  · rename_i hse
+    simp only [hse] at h
+    exact path_write0_reject env pb d k rest ins a e h
+
+/-- F185 is repaired (fixes/C03-F185.patch): the content of a frozen container field is sealed — the
+write through the child is refused with WritePermissionError and nothing changes. -/
+theorem C03_F185_repaired :
+    pathWrite envT (fun _ => false)
+      ⟨[Field.mk (.const "fl") (.list (.int none none F0) 0 none ⟨false, .list [.int 1, .int 2], true⟩)],
+       [("fl", .list [.int 1, .int 2])]⟩ "fl" [.idx 0] false (.int 7)
+    = (⟨[Field.mk (.const "fl") (.list (.int none none F0) 0 none ⟨false, .list [.int 1, .int 2], true⟩)],
+        [("fl", .list [.int 1, .int 2])]⟩, some .perm) := by rfl
 
 example : PathOK envT (.list (.int (some 0) none F0) 0 (some 3) F0) (.list [.int 1]) [.idx 0] :=
-  ⟨rfl, idem_of_frag envT false _ (by rfl), fun h => absurd rfl h⟩
+  ⟨trivial, rfl, idem_of_frag envT false _ (by rfl), fun h => absurd rfl h⟩
+
+/-- … and a Union-typed descendant: the write goes to the candidate the value is bound to. -/
+example : PathOK envT (.union [.int none none F0, .list (.int (some 0) none F0) 0 (some 3) F0] F0)
+    (.list [.int 1]) [.idx 0] :=
+  ⟨⟨rfl, _, rfl⟩, rfl, idem_of_frag envT false _ (by rfl), fun h => absurd rfl h⟩
+
+example : nestedSet envT (fun _ => false)
+    (.union [.int none none F0, .list (.int (some 0) none F0) 0 (some 3) F0] F0)
+    (.list [.int 1]) [.idx 0] false (.int (-1)) = .error .value := by rfl
+
+/-! ### Batched path writes and histories with path operations -/
+
+/-- What `path_write0_preserve` asks of one entry `(k, rest, ins, a)` in the state it runs in. -/
+def EntryOK (env : Env) (d : TDict) (w : String × List PKey × Bool × Val) : Prop :=
+  w.2.1 ≠ [] → ∀ c fld, lookup d.kvs w.1 = some c → getField env d.fields w.1 = some fld →
+    PathOK env fld.value c w.2.1
+
+/-- … of every entry of a batch, each in the state left by the entries before it. -/
+def LoopOK (env : Env) (pb : Val → Bool) : TDict → List (String × List PKey × Bool × Val) → Prop
+  | _, [] => True
+  | d, w :: ws => EntryOK env d w ∧ LoopOK env pb (pathWrite env pb d w.1 w.2.1 w.2.2.1 w.2.2.2).1 ws
+
+theorem path_loop_preserve (env : Env) (pb : Val → Bool) (ws : List (String × List PKey × Bool × Val)) :
+    ∀ (d : TDict), (∀ f ∈ d.fields, Idem env false f.value) → (∀ f ∈ d.fields, MissingOK env false f.value) →
+      LoopOK env pb d ws → ConformsD env false d → NoStaleMissing env false d →
+      ConformsD env false (pathLoop env pb d ws).1 ∧ NoStaleMissing env false (pathLoop env pb d ws).1 ∧
+        (pathLoop env pb d ws).1.fields = d.fields := by
+  induction ws with
+  | nil => intro d _ _ _ hc hs; exact ⟨hc, hs, rfl⟩
+  | cons w ws ih =>
+    intro d hI hM hok hc hs
+    obtain ⟨k, rest, ins, a⟩ := w
+    obtain ⟨h1, h2⟩ := hok
+    have hw := C03_path_write_preserve env pb d k rest ins a hI hM h1 hc hs
+    simp only [pathLoop]
+    cases hpw : pathWrite env pb d k rest ins a with
+    | mk d' e =>
+      rw [hpw] at hw
+      simp only [hpw] at h2
+      cases e with
+      | some e => exact hw
+      | none =>
+        simp only []
+        have := ih d' (by rw [hw.2.2]; exact hI) (by rw [hw.2.2]; exact hM) h2 hw.1 hw.2.1
+        exact ⟨this.1, this.2.1, by rw [this.2.2, hw.2.2]⟩
+
+/-- A batched `rebind` with key paths preserves the invariant, whether it runs to the end, stops at a
+rejected entry (the applied prefix stays), or is refused as a whole by the sealed-target pre-check. -/
+theorem C03_path_batch_preserve (env : Env) (pb : Val → Bool) (d : TDict)
+    (ws : List (String × List PKey × Bool × Val))
+    (hI : ∀ f ∈ d.fields, Idem env false f.value) (hM : ∀ f ∈ d.fields, MissingOK env false f.value)
+    (hok : LoopOK env pb d ws) (hc : ConformsD env false d) (hs : NoStaleMissing env false d) :
+    ConformsD env false (pathBatch env pb d ws).1 ∧ NoStaleMissing env false (pathBatch env pb d ws).1 ∧
+      (pathBatch env pb d ws).1.fields = d.fields := by
+  unfold pathBatch
+  split
+  · exact ⟨hc, hs, rfl⟩
+  · exact path_loop_preserve env pb ws d hI hM hok hc hs
+
+/-- A batch with a sealed target anywhere is refused before anything is written. -/
+theorem C03_path_batch_sealed (env : Env) (pb : Val → Bool) (d : TDict)
+    (ws : List (String × List PKey × Bool × Val)) (w : String × List PKey × Bool × Val) (hw : w ∈ ws)
+    (e : E) (he : entryPre env d w.1 w.2.1 = some e) :
+    (pathBatch env pb d ws).1 = d ∧ (pathBatch env pb d ws).2.isSome = true := by
+  unfold pathBatch
+  cases hf : ws.findSome? (fun w => entryPre env d w.1 w.2.1) with
+  | some e' => exact ⟨rfl, rfl⟩
+  | none =>
+    rw [List.findSome?_eq_none_iff] at hf
+    have := hf w hw
+    rw [he] at this
+    cases this
+
+/-- A write argument that comes back as `MISSING_VALUE` without being it was mapped there by the
+field's own `apply` (a typed container is stored as it is, or validated by `apply`). -/
+theorem applyArg_missing (env : Env) (spec : Spec) (pb : Val → Bool) (a : Arg)
+    (h : applyArg env spec false pb a = .ok .missing) (hm : a.val.isMissing = false) :
+    apply env spec false a.val = .ok .missing := by
+  cases a with
+  | plain v => exact h
+  | typed src sp v =>
+    simp only [Arg.val] at hm ⊢
+    have hv : ∀ w, (Except.ok w : R Val) = .ok .missing → w = v → False := by
+      intro w h1 h2
+      injection h1 with h1
+      subst h2; rw [h1] at hm; cases hm
+    simp only [applyArg] at h
+    split at h
+    · exact h
+    · split at h
+      · cases h
+      · split at h
+        · exact (hv v h rfl).elim
+        · split at h
+          · cases h
+          · split at h
+            · split at h
+              · rename_i r hr
+                rw [h] at hr
+                exact (hv _ rfl (unionTyped_ok env false src v .missing _ hr)).elim
+              · exact h
+            · exact h
+
+/-- The dict write primitive keeps "no stale MISSING" for every kind of argument. -/
+theorem dictPrim_nostale_arg (env : Env) (pb : Val → Bool) (d : TDict) (k : String) (a : Arg)
+    (hM : ∀ fld ∈ d.fields, MissingOK env false fld.value)
+    (hs : NoStaleMissing env false d) : NoStaleMissing env false (dictPrim env false pb d k a).1 := by
+  cases a with
+  | plain v => exact dictPrim_nostale env pb d k v hM hs
+  | typed src sp v =>
+    unfold dictPrim
+    cases hg : getField env d.fields k with
+    | none => exact hs
+    | some f =>
+      obtain ⟨ks, spec⟩ := f
+      have hmem : Field.mk ks spec ∈ d.fields := getField_mem env d.fields k _ hg
+      simp only []
+      split
+      · intro kv hkv
+        simp only [eraseKey, List.mem_filter] at hkv
+        exact hs kv hkv.1
+      · cases hap : applyArg env spec false pb (if (Arg.typed src sp v).val.isMissing = true
+            then Arg.plain spec.flags.default else Arg.typed src sp v) with
+        | error e => exact hs
+        | ok w =>
+          intro kv hkv hm f' hf'
+          rcases mem_setKey _ _ _ _ hkv with h | h
+          · exact hs kv h hm f' hf'
+          · subst h
+            simp only at hm hf'
+            rw [hg] at hf'
+            injection hf' with hf'
+            subst hf'
+            simp only [Field.value]
+            rw [isMissing_eq _ hm] at hap
+            by_cases ham : v.isMissing = true
+            · simp only [Arg.val, ham, if_true, applyArg] at hap
+              exact hap
+            · simp only [Arg.val, ham] at hap
+              have h1 := applyArg_missing env spec pb (.typed src sp v) hap (by simpa [Arg.val] using ham)
+              have := hM _ hmem
+              simp only [Field.value] at this
+              exact this v h1 (by simpa using ham)
+
+theorem dictBatch_nostale (env : Env) (pb : Val → Bool) (kvs : List (String × Arg)) :
+    ∀ (d : TDict), (∀ f ∈ d.fields, Idem env false f.value) → (∀ f ∈ d.fields, MissingOK env false f.value) →
+      (∀ kv ∈ kvs, ArgTrusted env d.fields false kv.1 kv.2) → ConformsD env false d →
+      NoStaleMissing env false d → NoStaleMissing env false (dictBatch env false pb d kvs).1 := by
+  induction kvs with
+  | nil => intro d _ _ _ _ hs; exact hs
+  | cons kv kvs ih =>
+    intro d hI hM ht hc hs
+    obtain ⟨k, a⟩ := kv
+    have h1 := C03_dict_prim_preserve env false pb d k a hI (ht (k, a) List.mem_cons_self) hc
+    have h2 := dictPrim_nostale_arg env pb d k a hM hs
+    simp only [dictBatch]
+    cases hp : dictPrim env false pb d k a with
+    | mk d' e =>
+      rw [hp] at h1 h2
+      cases e with
+      | some e => exact h2
+      | none =>
+        simp only []
+        exact ih d' (by rw [h1.2]; exact hI) (by rw [h1.2]; exact hM)
+          (fun kv hkv => by rw [h1.2]; exact ht kv (List.mem_cons_of_mem _ hkv)) h1.1 h2
+
+/-- Every dict / object mutator keeps "no stale MISSING" (complete mode). -/
+theorem dictStep_nostale (env : Env) (pb : Val → Bool) (d : TDict) (op : DictOp)
+    (hd : distinctKeys (fieldKeySpecs d.fields) = true)
+    (hI : ∀ f ∈ d.fields, Idem env false f.value) (hM : ∀ f ∈ d.fields, MissingOK env false f.value)
+    (ht : op.trusted env d.fields false) (hc : ConformsD env false d) (hs : NoStaleMissing env false d) :
+    NoStaleMissing env false (dictStep env false pb d op).1 := by
+  cases op with
+  | setitem k a => exact dictPrim_nostale_arg env pb d k a hM hs
+  | delitem k =>
+    simp only [dictStep]
+    split
+    · exact hs
+    · exact dictPrim_nostale_arg env pb d k _ hM hs
+  | setdefault k a =>
+    simp only [dictStep]
+    split
+    · split
+      · exact dictPrim_nostale_arg env pb d k a hM hs
+      · exact hs
+    · exact dictPrim_nostale_arg env pb d k a hM hs
+  | update kvs => exact dictBatch_nostale env pb kvs d hI hM ht hc hs
+  | clear =>
+    simp only [dictStep]
+    cases hsa : schemaApply env d.fields false [] with
+    | ok kvs => exact schemaApply_nostale env false d.fields hd hI hM [] kvs (by simp) hsa
+    | error e => exact hs
+  | popitem => exact hs
+
+/-- The side conditions of one history step, in the state it runs in. -/
+def TOp.ok (env : Env) (pb : Val → Bool) (d : TDict) : TOp → Prop
+  | .plain o => o.trusted env d.fields false
+  | .paths ws => LoopOK env pb d ws
+
+def HistOK (env : Env) (pb : Val → Bool) : TDict → List TOp → Prop
+  | _, [] => True
+  | d, op :: ops => op.ok env pb d ∧ HistOK env pb (tStep env false pb d op).1 ops
+
+def runOps (env : Env) (pb : Val → Bool) (d : TDict) : List TOp → TDict
+  | [] => d
+  | op :: ops => runOps env pb (tStep env false pb d op).1 ops
+
+/-- One step of a mixed history — a mutator call or a `rebind` with key paths of any length —
+preserves the invariant, successful, rejected, or refused. -/
+theorem C03_step_preserve (env : Env) (pb : Val → Bool) (d : TDict) (op : TOp)
+    (hd : distinctKeys (fieldKeySpecs d.fields) = true)
+    (hI : ∀ f ∈ d.fields, Idem env false f.value) (hM : ∀ f ∈ d.fields, MissingOK env false f.value)
+    (hok : op.ok env pb d) (hc : ConformsD env false d) (hs : NoStaleMissing env false d) :
+    ConformsD env false (tStep env false pb d op).1 ∧ NoStaleMissing env false (tStep env false pb d op).1 ∧
+      (tStep env false pb d op).1.fields = d.fields := by
+  cases op with
+  | plain o =>
+    have h1 := C03_dict_preserve' env false pb d o hd hI hok hc
+    exact ⟨h1.1, dictStep_nostale env pb d o hd hI hM hok hc hs, h1.2⟩
+  | paths ws => exact C03_path_batch_preserve env pb d ws hI hM hok hc hs
+
+/-- The invariant holds along every history of mutator calls AND path rebinds. -/
+theorem C03_dict_history_paths (env : Env) (pb : Val → Bool) (ops : List TOp) :
+    ∀ (d : TDict), distinctKeys (fieldKeySpecs d.fields) = true →
+      (∀ f ∈ d.fields, Idem env false f.value) → (∀ f ∈ d.fields, MissingOK env false f.value) →
+      HistOK env pb d ops → ConformsD env false d → NoStaleMissing env false d →
+      ConformsD env false (runOps env pb d ops) ∧ NoStaleMissing env false (runOps env pb d ops) := by
+  induction ops with
+  | nil => intro d _ _ _ _ hc hs; exact ⟨hc, hs⟩
+  | cons op ops ih =>
+    intro d hd hI hM hok hc hs
+    obtain ⟨h1, h2, h3⟩ := C03_step_preserve env pb d op hd hI hM hok.1 hc hs
+    exact ih _ (by rw [h3]; exact hd) (by rw [h3]; exact hI) (by rw [h3]; exact hM) hok.2 h1 h2
+
+/-- … from construction on: nothing is assumed about the state, only about the schema (distinct
+keys, idempotent field specs) and the steps (`HistOK`). -/
+theorem C03_history_from_construct (env : Env) (pb : Val → Bool) (fields : List Field)
+    (kvs : List (String × Val)) (d : TDict) (ops : List TOp)
+    (hd : distinctKeys (fieldKeySpecs fields) = true)
+    (hI : ∀ f ∈ fields, Idem env false f.value) (hM : ∀ f ∈ fields, MissingOK env false f.value)
+    (hnd : (kvs.map (·.1)).Nodup) (h : constructDict env false fields kvs = .ok d)
+    (hok : HistOK env pb d ops) : ConformsD env false (runOps env pb d ops) := by
+  obtain ⟨hc, hf⟩ := C03_dict_construct env false fields kvs d hd hI hnd h
+  have hs : NoStaleMissing env false d := by
+    unfold constructDict at h
+    cases hsa : schemaApply env fields false kvs with
+    | error e => simp [hsa] at h
+    | ok out =>
+      simp only [hsa, Except.ok.injEq] at h
+      subst h
+      exact schemaApply_nostale env false fields hd hI hM kvs out hnd hsa
+  exact (C03_dict_history_paths env pb ops d (by rw [hf]; exact hd) (by rw [hf]; exact hI)
+    (by rw [hf]; exact hM) hok hc hs).1
 
 /-! ## What a conforming member looks like -/
 
@@ -671,6 +926,10 @@ theorem C03_table_list_growers : ∀ m ∈ Gen.listGrowers, m.2.1 = true ∧ m.2
 
 /-- Every shrinking entry point consults `min_size`. -/
 theorem C03_table_list_shrinkers : ∀ m ∈ Gen.listShrinkers, m.2 = true := by decide
+
+/-- The model refuses writes below a frozen field (`sealedAt`) and answers a key of the wrong kind
+with KeyError: both are facts of the current source. -/
+theorem C03_table_frozen_sealed : Gen.frozenChildSealed = true ∧ Gen.listPrimBadKeyIsKeyError = true := by decide
 
 theorem C03_table_dict :
     Gen.dictPrimFormalizes = true ∧ Gen.dictFormalizeApplies = true ∧
